@@ -15,21 +15,21 @@ package owa
 //@   || (typeis(x, model.WeightType) && id in x.(model.WeightType).Weights)
 
 //@ func (*owaParams).find
-//@   property C07 C15 C18 C03 C20
+//@   property C07 C15 C18 C03 C20 C01 C09 C19
 //@   requires o.Weights != nil
 //@   panics_iff [missing] !(exists k int :: 0 <= k && k < len(*o.Weights) && (*o.Weights)[k].Id == criterion.Id)
 //@   ensures [first_match] result != nil && exists k int :: 0 <= k && k < len(*o.Weights) && *result == (*o.Weights)[k] && result.Id == criterion.Id
 //@   loop 1 invariant [none_before] forall j int :: 0 <= j && j < iter ==> (*o.Weights)[j].Id != criterion.Id
 
 //@ func (*OwaBiasListener).OnCriteriaRemoved
-//@   property C07 C15 C03
+//@   property C07 C15 C03 C01 C09 C20
 //@   nopanic
 //@   refines model.BiasListener.OnCriteriaRemoved with validParams=owaValid, coversId=owaCovers
 //@   loop 1 invariant [ctx] fresh(newWeights) && len(newWeights) == len(*leftCriteria)
 //@   loop 1 invariant [kept] forall k int :: 0 <= k && k < iter ==> newWeights[k].Id == (*leftCriteria)[k].Id
 
 //@ func (*OwaBiasListener).OnCriterionAdded
-//@   property C07 C18 C03
+//@   property C07 C18 C03 C01 C09 C19 C20
 //@   fnparam generator ensures 0.0 <= result && result < 1.0
 //@   refines model.BiasListener.OnCriterionAdded with validParams=owaValid, coversId=owaCovers, accepts=owaAccepts, acceptsAny=owaAcceptsAny
 //@   ensures [returns_single_weight] typeis(result, model.WeightType) && criterion.Id in result.(model.WeightType).Weights
@@ -37,7 +37,7 @@ package owa
 //@             && model.fractionOf(result.(model.WeightType).Weights[criterion.Id], (*params.(owaParams).Weights)[k].Weight)
 
 //@ func _sortWeightsMutate
-//@   property C03 C07 C20 C18 C01 C04 C15
+//@   property C03 C07 C20 C18 C01 C04 C15 C09 C19
 //@   assigns *weights
 //@   ensures [same_length] len(*weights) == old(len(*weights)) && *weights == old(*weights)
 //@   ensures [ascending] forall i int, j int :: 0 <= i && i < j && j < len(*weights) ==> (*weights)[i].Weight <= (*weights)[j].Weight
@@ -46,11 +46,11 @@ package owa
 
 // criterionAlreadyExist: the rejection itself - never returns
 //@ func criterionAlreadyExist
-//@   property C07 C03 C20 C18
+//@   property C07 C03 C20 C18 C01 C09 C19
 //@   panics_iff [always] true
 
 //@ func addCriteria
-//@   property C07 C03 C20 C18
+//@   property C07 C03 C20 C18 C01 C09 C19
 //@   requires 0 <= offset && offset + len(*toAdd) <= len(*result) && *validationCache != nil && arr(*result) != arr(*toAdd)
 //@   assigns *result, *validationCache
 //@   ensures [copied] forall k int :: offset <= k && k < offset + len(*toAdd) ==> (*result)[k] == (*toAdd)[k - offset]
@@ -66,7 +66,7 @@ package owa
 //@   loop 1 invariant [rest_unchanged] *result == old(*result) && forall k int :: 0 <= k && k < len(*result) && !(offset <= k && k < offset + iter) ==> (*result)[k] == old((*result)[k])
 
 //@ func (*owaParams).merge
-//@   property C07 C18 C03 C20
+//@   property C07 C18 C03 C20 C01 C09 C19
 //@   requires o.Weights != nil && other.Weights != nil
 //@   ensures [merged] result != nil && result.Weights != nil && len(*result.Weights) == len(*o.Weights) + len(*other.Weights)
 //@   ensures [old_kept] forall j int :: 0 <= j && j < len(*o.Weights) ==> exists k int :: 0 <= k && k < len(*result.Weights) && (*result.Weights)[k] == (*o.Weights)[j]
@@ -74,7 +74,7 @@ package owa
 //@   ensures [sorted] forall i int, j int :: 0 <= i && i < j && j < len(*result.Weights) ==> (*result.Weights)[i].Weight <= (*result.Weights)[j].Weight
 
 //@ func (*OwaBiasListener).Merge
-//@   property C07 C18 C03
+//@   property C07 C18 C03 C01 C09 C19 C20
 //@   refines model.BiasListener.Merge with validParams=owaValid, coversId=owaCovers, accepts=owaAccepts, acceptsAny=owaAcceptsAny
 //@   ensures [a_single_added_weight_is_taken_as_given] typeis(addition, model.WeightType) ==> forall q string :: q in addition.(model.WeightType).Weights ==>
 //@             exists k int :: 0 <= k && k < len(*result.(owaParams).Weights) && (*result.(owaParams).Weights)[k].Id == q && (*result.(owaParams).Weights)[k].Weight == addition.(model.WeightType).Weights[q]
@@ -125,7 +125,7 @@ package owa
 
 // the parsed parameters: every criterion with exactly the weight the request gives it (no sign, no scaling)
 //@ func toArray
-//@   property C03 C20 C07
+//@   property C03 C20 C07 C01
 //@   ensures [one_entry_per_weight] len(*result) == len(*weights)
 //@   ensures [weights_as_requested] result != nil && fresh(result) && fresh(*result) && forall k int :: 0 <= k && k < len(*criteria) && k < len(*result) ==>
 //@             (*result)[k].Criterion == (*criteria)[k] && (*result)[k].Weight == (*weights)[(*criteria)[k].Id]
@@ -134,11 +134,11 @@ package owa
 
 // a weight for every declared criterion and no other (count checked), kept in ascending order of weight
 //@ func (*OWAPreferenceFunc).ParseParams
-//@   property C03 C20 C07
+//@   property C03 C20 C07 C01
 //@   ensures [one_weight_per_criterion_ascending] typeis(result, owaParams) && result.(owaParams).Weights != nil && len(*result.(owaParams).Weights) == len(dm.Criteria)
 //@             && forall i int, j int :: 0 <= i && i < j && j < len(*result.(owaParams).Weights) ==> (*result.(owaParams).Weights)[i].Weight <= (*result.(owaParams).Weights)[j].Weight
 //@ func (*OWAPreferenceFunc).Identifier
-//@   property C20 C03
+//@   property C20 C03 C01 C04 C05 C06 C07 C08 C09 C11 C12 C13 C14 C15 C16 C17 C18 C19
 //@   nopanic
 //@   ensures [name] result == "owa"
 //@ func (*OWAPreferenceFunc).MethodParameters
@@ -155,14 +155,14 @@ package owa
 
 // ---- registered names (what a request must say to select this object; what error messages list)
 //@ func (*OwaBiasListener).Identifier
-//@   property C07 C20
+//@   property C07 C20 C01 C03 C04 C05 C06 C08 C09 C11 C12 C13 C14 C15 C16 C17 C18 C19
 //@   nopanic
 //@   ensures [name] result == "owa"
 
 // ---- importance of a criterion for OWA (C15): its values summed over the considered alternatives (the weights are positional)
 //@ spec owaImportance(l model.BiasListener, p *model.DecisionMakingParams, id string) real = model.cumw(p.ConsideredAlternatives, id, len(p.ConsideredAlternatives), model.WeightIdentity)
 //@ func (*OwaBiasListener).RankCriteriaAscending
-//@   property C15 C07 C16 C18 C19
+//@   property C15 C07 C16 C18 C19 C01 C09 C20
 //@   refines model.BiasListener.RankCriteriaAscending with validParams=owaValid, coversId=owaCovers, imp=owaImportance
 //@   requires [distinct] model.distinctCriteria(params.Criteria)
 //@   ensures [every_criterion_once_ascending] result != nil && fresh(result) && fresh(*result) && len(*result) == len(params.Criteria)
